@@ -2,6 +2,7 @@
 from __future__ import annotations
 
 import ast
+import os
 import time
 import traceback
 from dataclasses import dataclass, field, asdict
@@ -44,6 +45,7 @@ class FuncResult:
     error: str = ''
     paths: int = 0
     seconds: float = 0.0
+    exec_seconds: float = 0.0
 
 
 BACKGROUND: list = []
@@ -92,61 +94,83 @@ def decode_val(model, t, depth=0):
     return str(v)
 
 
-def discharge(ob: Oblig, timeout_ms: int, witness_terms: dict) -> OblResult:
-    t0 = time.time()
+def _solver(ob: Oblig, timeout_ms: int, seed: int):
     s = z3.Solver()
     s.set('timeout', timeout_ms)
+    if seed:
+        s.set('random_seed', seed)
+        s.set('smt.random_seed', seed)
     for a in background_axioms():
         s.add(a)
     for h in ob.hyps:
         s.add(h)
     s.add(z3.Not(ob.goal))
+    return s
+
+
+def discharge(ob: Oblig, timeout_ms: int, witness_terms: dict) -> OblResult:
+    """Portfolio: short attempts with several seeds first (unstable quantifier queries are
+    either proved within a second or not at all), then the full budget, then cvc5."""
+    t0 = time.time()
+    backend = f'z3-{z3.get_version_string()}'
+    status = 'unknown'
+    s = None
+    schedule = [(min(2000, timeout_ms), 0), (min(2000, timeout_ms), 1), (min(2000, timeout_ms), 7),
+                (min(3000, timeout_ms), 13), (timeout_ms, 0), (timeout_ms, 3)]
+    tried_cvc5 = False
     try:
-        r = s.check()
+        for k, (tmo, seed) in enumerate(schedule):
+            if k == 2 and not tried_cvc5:
+                tried_cvc5 = True
+                if try_cvc5(s, min(timeout_ms, 10000)) == 'unsat':
+                    status, backend = 'discharged', 'cvc5-1.0.3'
+                    break
+            s = _solver(ob, tmo, seed)
+            r = str(s.check())
+            if r != 'unknown':
+                status = {'unsat': 'discharged', 'sat': 'failed'}[r]
+                if seed:
+                    backend += f'(seed {seed})'
+                break
     except z3.Z3Exception as e:   # pragma: no cover
         return OblResult(ob.name, ob.kind, 'error', 'z3', time.time() - t0, ob.line, ob.func, str(e))
-    backend = f'z3-{z3.get_version_string()}'
-    size = 0
-    status = {'unsat': 'discharged', 'sat': 'failed', 'unknown': 'unknown'}[str(r)]
-    model = None
     if status == 'unknown':
-        # retry with a different tactic / seed before giving up, then cvc5
-        for seed in (1, 7):
-            s2 = z3.Solver()
-            s2.set('timeout', timeout_ms)
-            s2.set('random_seed', seed)
-            s2.set('smt.random_seed', seed)
-            for a in background_axioms():
-                s2.add(a)
-            for h in ob.hyps:
-                s2.add(h)
-            s2.add(z3.Not(ob.goal))
-            r2 = s2.check()
-            if str(r2) != 'unknown':
-                status = {'unsat': 'discharged', 'sat': 'failed'}[str(r2)]
-                s = s2
-                backend += f'(seed {seed})'
-                break
-        if status == 'unknown':
-            c5 = try_cvc5(s, timeout_ms)
-            if c5 == 'unsat':
-                status, backend = 'discharged', 'cvc5'
-    if status == 'failed':
-        m = s.model()
-        model = {}
-        for k, term in {**witness_terms, **ob.witness}.items():
-            try:
-                if isinstance(term, tuple) and term[0] == 'list':
-                    _, ref_t, st_heap = term
-                    model[k] = decode_list(m, ref_t, st_heap)
-                else:
-                    model[k] = decode_val(m, term)
-            except Exception as e:     # pragma: no cover
-                model[k] = f'?{e}'
+        c5 = try_cvc5(s, timeout_ms)
+        if c5 == 'unsat':
+            status, backend = 'discharged', 'cvc5-1.0.3'
+    model = None
+    if status in ('failed', 'unknown'):
+        try:
+            m = s.model()
+        except z3.Z3Exception:
+            m = None
+        if m is not None:
+            model = {'_candidate_only': status == 'unknown'} if status == 'unknown' else {}
+            for k, term in {**witness_terms, **ob.witness}.items():
+                try:
+                    if isinstance(term, tuple) and term[0] == 'list':
+                        _, ref_t, st_heap = term
+                        model[k] = decode_list(m, ref_t, st_heap)
+                    else:
+                        model[k] = decode_val(m, term)
+                except Exception as e:     # pragma: no cover
+                    model[k] = f'?{e}'
+    size = 0
     try:
-        size = len(s.to_smt2())
+        dd = os.environ.get('PYVC_DUMP')
+        if dd and (status != "discharged" or "cvc5" in backend):
+            txt = s.to_smt2()
+            size = len(txt)
+            os.makedirs(dd, exist_ok=True)
+            with open(os.path.join(dd, ob.name.replace(':', '_').replace('/', '_') + '.smt2'), 'w') as fh:
+                fh.write(txt)
     except Exception:
         size = 0
+    if not size:
+        try:
+            size = sum(len(h.sexpr()) for h in ob.hyps[-3:]) + len(ob.goal.sexpr())
+        except Exception:
+            size = 0
     return OblResult(ob.name, ob.kind, status, backend, round(time.time() - t0, 4), ob.line,
                      ob.func, ob.note, model, size)
 
@@ -236,8 +260,20 @@ def distinct_param_refs(st: State, params: dict[str, V]):
             st.assume(as_ref(refs[i][1]) != as_ref(refs[j][1]))
 
 
+def finalize(res: FuncResult, con: Contract):
+    sts = {o.status for o in res.obligations}
+    if 'failed' in sts:
+        res.status = 'failed'
+    elif 'unknown' in sts or 'error' in sts:
+        res.status = 'undecided'
+    n_real = len([o for o in res.obligations if o.kind != 'vacuity'])
+    if n_real < con.min_obligations and res.status == 'verified':
+        res.status = 'undecided'
+        res.error = f'only {n_real} obligations generated (< {con.min_obligations}): vacuous'
+
+
 def verify_function(repo: Repo, registry: Registry, con: Contract, prop: str, specs: dict,
-                    timeout_ms: int = 10000) -> FuncResult:
+                    timeout_ms: int = 10000, defer: list | None = None) -> FuncResult:
     t0 = time.time()
     fi = repo.function(con.qualname)
     label = con.label or '.'.join(con.qualname.split('.')[1:])
@@ -295,9 +331,8 @@ def verify_function(repo: Repo, registry: Registry, con: Contract, prop: str, sp
                 saved_locals = ost.locals
                 ost.locals = dict(params)   # postconditions see the parameters (entry values)
                 for lbl, src in con.ensures.items():
-                    g = ex.spec_bool(ost, src, env)
-                    ctx.add_oblig(ost, 'post', lbl, g, line=o.line or fi.node.lineno,
-                                  witness={'result': env['result'].t} if env['result'].t is not None else {})
+                    ex.spec_goal(ost, 'post', lbl, src, env, line=o.line or fi.node.lineno,
+                                 witness={'result': env['result'].t} if env['result'].t is not None else {})
                 for exc, csrc in con.raises.items():
                     ost.use_old += 1
                     try:
@@ -335,6 +370,14 @@ def verify_function(repo: Repo, registry: Registry, con: Contract, prop: str, sp
                         witness[f'{n}.{f}'] = z3.Select(arr, Val.rv(v.t))
             if v.kind == 'list':
                 witness[f'{n}[]'] = ('list', Val.rv(v.t), st.heap0)
+        closure = heap_closure(st)
+        res.exec_seconds = round(time.time() - t0, 3)
+        for ob in ctx.obligs:
+            ob.hyps = closure + ob.hyps
+        if defer is not None:
+            defer.append((res, list(ctx.obligs), witness))
+            res.seconds = round(time.time() - t0, 3)
+            return res
         for ob in ctx.obligs:
             res.obligations.append(discharge(ob, timeout_ms, witness))
     except Unsupported as e:
@@ -350,17 +393,32 @@ def verify_function(repo: Repo, registry: Registry, con: Contract, prop: str, sp
         return res
     finally:
         ex.frames.pop()
-    sts = {o.status for o in res.obligations}
-    if 'failed' in sts:
-        res.status = 'failed'
-    elif 'unknown' in sts or 'error' in sts:
-        res.status = 'undecided'
-    n_real = len([o for o in res.obligations if o.kind != 'vacuity'])
-    if n_real < con.min_obligations and res.status == 'verified':
-        res.status = 'undecided'
-        res.error = f'only {n_real} obligations generated (< {con.min_obligations}): vacuous'
+    finalize(res, con)
     res.seconds = round(time.time() - t0, 3)
     return res
+
+
+def heap_closure(st: State) -> list:
+    """Well-formedness of the entry heap: every reference stored in a pre-existing object
+    denotes a pre-existing object (0 <= ref < alloc0)."""
+    out = []
+    r = z3.Int('hc!r')
+    i = z3.Int('hc!i')
+    x = z3.Const('hc!x', Val)
+    a0 = st.alloc0
+
+    def ok(t):
+        return z3.Implies(Val.is_ref(t), z3.And(Val.rv(t) >= 0, Val.rv(t) < a0))
+    for f, arr in st.heap0.items():
+        if f == '$elems':
+            out.append(z3.ForAll([r, i], ok(z3.Select(z3.Select(arr, r), i))))
+        elif f == '$map':
+            out.append(z3.ForAll([r, x], ok(z3.Select(z3.Select(arr, r), x))))
+        elif f.startswith('$'):
+            continue
+        else:
+            out.append(z3.ForAll([r], ok(z3.Select(arr, r))))
+    return out
 
 
 def strip_docstring(body):
